@@ -19,7 +19,7 @@ RULE = ("fault space = truncation points of the writer: frame sizes 2*nc for nc 
         "distinct = distinct (nc, frames, trailing, claim, fs, reader class)")
 ASSUMPTIONS = ["truncation = a prefix of the byte stream the writer would have produced", "at least one complete frame is present",
                "still-acquiring metadata (no fileTimeSecs / fileSizeBytes yet) is only given to OnlineReader, the class meant for it"]
-REQUIRED = {"constructions": 400, "resaved_headers": 60, "prefix_values_checked": 400, "half_frame_or_more": 100, "beyond_end_reads": 400, "cbin_short": 2, "deferred_opens": 60, "reopens_after_growth": 100, "metadata_without_size_field": 100, "online_live_sizes": 20, "long_off_by_few": 6, "other_sample_widths": 40, "headers_announcing_zero": 40}
+REQUIRED = {"strict_diagnostic_policy_opens": 200, "constructions": 400, "resaved_headers": 60, "prefix_values_checked": 400, "half_frame_or_more": 100, "beyond_end_reads": 400, "cbin_short": 2, "deferred_opens": 60, "reopens_after_growth": 100, "metadata_without_size_field": 100, "online_live_sizes": 20, "long_off_by_few": 6, "other_sample_widths": 40, "headers_announcing_zero": 40}
 CASE_TIMEOUT = 400.0
 NCS = [2, 5, 97, 277, 385]
 FRAMES = [1, 2, 22, 1000]
@@ -54,6 +54,38 @@ def gen_cases(seed, tier):
     for i in range(8 if tier == "quick" else 60):
         cases.append({"cls": "long-off-by-few", "seed": seed * 100 + i, "form": ["bin", "cbin"][i % 2], "_w": 3})
     return cases
+
+
+class _diagnostics:
+    """strict=True: warnings are errors and logging is on (records go to a null handler) for the duration of the block; restored afterwards"""
+
+    def __init__(self, strict):
+        self.strict = strict
+
+    def __enter__(self):
+        if self.strict:
+            import logging
+            import warnings
+            self._cw = warnings.catch_warnings()
+            self._cw.__enter__()
+            warnings.simplefilter("error")
+            self._disabled = logging.root.manager.disable
+            logging.disable(logging.NOTSET)
+            self._h = logging.NullHandler()
+            self._lg = logging.getLogger("ibllib")
+            self._lvl = self._lg.level
+            self._lg.addHandler(self._h)
+            self._lg.setLevel(logging.DEBUG)
+        return self
+
+    def __exit__(self, *a):
+        if self.strict:
+            import logging
+            self._lg.removeHandler(self._h)
+            self._lg.setLevel(self._lvl)
+            logging.disable(self._disabled)
+            self._cw.__exit__(*a)
+        return False
 
 
 def in_progress(text):
@@ -132,16 +164,24 @@ def run_case(case):
                         keyp = "online:acquiring-meta-trailing-bytes"
                     if 2 * trailing >= frame:
                         res.count("half_frame_or_more")
-                    try:
-                        R = spikeglx.Reader if cls_name.startswith("Reader") else spikeglx.OnlineReader
-                        sr = R(b, sort=False, ignore_warnings=bool(rng.integers(0, 2)) if cls_name != "OnlineReader-acquiring" else False)
-                        res.count("constructions")
-                    except Exception as e:
-                        res.count("constructions")
-                        res.exception(keyp + ":open-exception", e, label)
-                        continue
-                    judge(res, sr, rec.raw, s2v, frames, label, keyp)
-                    sr.close()
+                    # ambient diagnostic policy (round 21): the worker runs with warnings ignored and logging disabled; every other file is opened and
+                    # read the way a strict caller runs things - warnings promoted to errors (python -W error, pytest -W error), logging enabled down
+                    # to DEBUG into a handler.  What the reader SAYS about a mismatch must not decide whether it opens.
+                    strict = (case["trailing"].index(trailing) + int(fs > 30000.1)) % 2 == 1
+                    with _diagnostics(strict):
+                        if strict:
+                            label += " [warnings=error, logging on]"
+                            res.count("strict_diagnostic_policy_opens")
+                        try:
+                            R = spikeglx.Reader if cls_name.startswith("Reader") else spikeglx.OnlineReader
+                            sr = R(b, sort=False, ignore_warnings=bool(rng.integers(0, 2)) if cls_name != "OnlineReader-acquiring" else False)
+                            res.count("constructions")
+                        except Exception as e:
+                            res.count("constructions")
+                            res.exception(keyp + ":open-exception" + (":strict-diagnostics" if strict else ""), e, label)
+                            continue
+                        judge(res, sr, rec.raw, s2v, frames, label, keyp)
+                        sr.close()
                     if trailing > 0 or claim != "equal":
                         nt += 1
                 # headers that went through the library's own writer (converted / split / re-saved recordings), announcing one or two
